@@ -421,13 +421,20 @@ where
 		tx_slate_id,
 		None,
 	)?;
-	if txs.1.len() != 1 {
+	// Several entries can share a slate id (a receive entry next to the send, when
+	// the slate was also handed to this wallet's own receive_tx): the one that
+	// carries the proof is meant
+	let mut candidates = txs.1;
+	if candidates.len() > 1 {
+		candidates.retain(|t| t.payment_proof.is_some());
+	}
+	if candidates.len() != 1 {
 		return Err(Error::PaymentProofRetrieval(
 			"Transaction doesn't exist".to_owned(),
 		));
 	}
 	// Pull out all needed fields, returning an error if they're not present
-	let tx = txs.1[0].clone();
+	let tx = candidates[0].clone();
 	let proof = match tx.payment_proof {
 		Some(p) => p,
 		None => {
